@@ -245,6 +245,8 @@ pub unsafe extern "C" fn jsonnet_evaluate_file(
 	error: &mut c_int,
 ) -> *const c_char {
 	let filename = unsafe { parse_path(CStr::from_ptr(filename)) };
+	// Imports, ext/tla code and callbacks made during evaluation go through the entered state
+	let _entered = vm.state.try_enter();
 	match vm
 		.state
 		.import(filename)
@@ -280,6 +282,8 @@ pub unsafe extern "C" fn jsonnet_evaluate_snippet(
 ) -> *const c_char {
 	let filename = unsafe { CStr::from_ptr(filename) };
 	let snippet = unsafe { CStr::from_ptr(snippet) };
+	// Imports, ext/tla code and callbacks made during evaluation go through the entered state
+	let _entered = vm.state.try_enter();
 	match vm
 		.state
 		.evaluate_snippet(filename.to_str().unwrap(), snippet.to_str().unwrap())
@@ -338,6 +342,8 @@ pub unsafe extern "C" fn jsonnet_evaluate_file_multi(
 	error: &mut c_int,
 ) -> *const c_char {
 	let filename = unsafe { parse_path(CStr::from_ptr(filename)) };
+	// Imports, ext/tla code and callbacks made during evaluation go through the entered state
+	let _entered = vm.state.try_enter();
 	match vm
 		.state
 		.import(filename)
@@ -367,6 +373,8 @@ pub unsafe extern "C" fn jsonnet_evaluate_snippet_multi(
 ) -> *const c_char {
 	let filename = unsafe { CStr::from_ptr(filename) };
 	let snippet = unsafe { CStr::from_ptr(snippet) };
+	// Imports, ext/tla code and callbacks made during evaluation go through the entered state
+	let _entered = vm.state.try_enter();
 	match vm
 		.state
 		.evaluate_snippet(filename.to_str().unwrap(), snippet.to_str().unwrap())
@@ -420,6 +428,8 @@ pub unsafe extern "C" fn jsonnet_evaluate_file_stream(
 	error: &mut c_int,
 ) -> *const c_char {
 	let filename = unsafe { parse_path(CStr::from_ptr(filename)) };
+	// Imports, ext/tla code and callbacks made during evaluation go through the entered state
+	let _entered = vm.state.try_enter();
 	match vm
 		.state
 		.import(filename)
@@ -449,6 +459,8 @@ pub unsafe extern "C" fn jsonnet_evaluate_snippet_stream(
 ) -> *const c_char {
 	let filename = unsafe { CStr::from_ptr(filename) };
 	let snippet = unsafe { CStr::from_ptr(snippet) };
+	// Imports, ext/tla code and callbacks made during evaluation go through the entered state
+	let _entered = vm.state.try_enter();
 	match vm
 		.state
 		.evaluate_snippet(filename.to_str().unwrap(), snippet.to_str().unwrap())
